@@ -986,6 +986,7 @@ package netty
 //@ field bootstrap.* covered
 //@ field bootstrap.bootstrapOptions immutable NewBootstrap
 //@ field bootstrap.listeners syncvalue
+//@ field bootstrap.listeners syncmapvalues *listener
 //@ field bootstrapOptions.bootstrapCtx immutable NewBootstrap, WithContext
 //@ field bootstrapOptions.bootstrapCancel immutable NewBootstrap, WithContext
 //@ field bootstrapOptions.clientInitializer immutable NewBootstrap, WithClientInitializer
@@ -1035,7 +1036,8 @@ package netty
 //@   ensures then_every_listener: evis(1, "Range") && evarg(1, 0) == &bs.listeners
 //@   ensures then_every_channel: implies(old(bs.bootstrapOptions.holder) != nil, nemitted() == 3 && evis(2, "ChannelHolder.CloseAll") && evrecv(2) == old(bs.bootstrapOptions.holder) && evarg(2, 0) == ErrServerClosed)
 //@   ensures nothing_else: implies(old(bs.bootstrapOptions.holder) == nil, nemitted() == 2)
-// (the requires of the callback is not checked at a call site: ASSUMED only Listeners are stored in the registry)
+// (the requires of the callback is not checked at a call site; that only Listeners are stored in the
+// registry is the static obligation bootstrap#protect:listeners.syncmapvalues)
 //@ func (*bootstrap).Shutdown$1
 //@   params key value
 //@   requires is(value, Listener)
